@@ -119,6 +119,91 @@ func TestC15(t *testing.T) {
 				restore()
 			}
 		}
+		// 0b. size ladders: containers whose sizes are chosen relative to a big one seen earlier
+		// on the same reader (a hundredth ... all of it), read one after the other through every
+		// entry point, or as siblings inside one document: what a reader keeps of a big container
+		// (a spare backing array, a slab, a size hint) must not end up shared between results.
+		// The expected trees are built next to the documents, not decoded.
+		e.rapidStage("size-ladders", "stateful", e.cfg.N(120, 20000), func(rt *rapid.T) {
+			defer deterministicGC()()
+			var run c15Runner
+			var hist []core.Case
+			big := []int64{100, 300, 5000, 20000, 70000, 70000}[rapid.IntRange(0, 5).Draw(rt, "big")]
+			frac := func(label string) int64 {
+				switch k := rapid.IntRange(0, 15).Draw(rt, label); k {
+				case 0:
+					return 0
+				case 1:
+					return 3
+				case 2:
+					return big / 100
+				case 3:
+					return big / 10
+				case 4:
+					return big / 5
+				case 5:
+					return big/4 - 1
+				case 6:
+					return big/4 + 1
+				case 7:
+					return big / 3
+				case 8:
+					return big / 2
+				case 9:
+					return big/2 + 1
+				case 10:
+					return big * 6 / 10
+				case 11:
+					return big * 9 / 10
+				case 12:
+					return big
+				case 13:
+					return big + 1
+				case 14:
+					return []int64{63, 64, 65, 4095, 4096, 4097, 65535, 65536, 65537}[rapid.IntRange(0, 8).Draw(rt, label+".edge")]
+				default:
+					return big * 2
+				}
+			}
+			nsteps := rapid.IntRange(3, 6).Draw(rt, "steps")
+			variant := int64(rapid.IntRange(0, 1).Draw(rt, "variant"))
+			if big > 5000 {
+				variant = 0 // maps of tens of thousands of keys make the comparison the bottleneck
+			}
+			hkey := uint64(14695981039346656037)
+			for i := 0; i < nsteps; i++ {
+				kind := []string{"ReadArray", "ReadValue", "ReadArray", "ReadValue", "ReadObject"}[rapid.IntRange(0, 4).Draw(rt, "entry")]
+				if big > 5000 && kind == "ReadObject" && rapid.IntRange(0, 3).Draw(rt, "keepobj") != 0 {
+					kind = "ReadArray"
+				}
+				ints := []int64{variant, int64(i) * 7000001}
+				if i == 0 {
+					ints = append(ints, big)
+				} else if rapid.IntRange(0, 3).Draw(rt, "siblings?") == 0 {
+					for k := rapid.IntRange(2, 5).Draw(rt, "nsib"); k > 0; k-- {
+						ints = append(ints, frac("sib"))
+					}
+					if rapid.Bool().Draw(rt, "bigfirst") {
+						ints[2] = big
+					}
+				} else {
+					ints = append(ints, frac("size"))
+				}
+				hist = append(hist, core.Case{Kind: "sized:" + kind, Ints: ints})
+				hkey = core.HashInts(core.Hash([]byte(kind), nil)^hkey, ints...)
+				r.BeginCase(&core.Case{Prop: "C15", Kind: "history", Steps: hist})
+				info, err := run.step(&hist[len(hist)-1])
+				r.Eval(hkey, i >= 2 && info.ok)
+				r.Label("step.sized")
+				if i >= 2 && r.WantSample(hkey) {
+					r.Sample(map[string]interface{}{"history": describeSteps(hist), "kept_results": len(run.kept)})
+				}
+				if err != nil {
+					cc := &core.Case{Prop: "C15", Kind: "history", Steps: append([]core.Case(nil), hist...)}
+					failRapid(rt, r, cc, fmt.Errorf("step %d: %w", len(hist)-1, err))
+				}
+			}
+		})
 		e.rapidStage("histories", "stateful", e.cfg.N(600, 100000), func(rt *rapid.T) {
 			defer deterministicGC()() // collections happen only at history start and at GC steps
 			var run c15Runner
